@@ -95,6 +95,11 @@ var c05Pool = map[string]string{
 	"who":    ":irc.example 352 me #x ua2 ha2 irc.example a H@ :0 Real A",
 	"joiny":  ":me!ident@host JOIN #y",
 	"modes":  ":a!ua@ha MODE #x +nk key",
+	// replies that change tracked state too
+	"whois":      ":irc.example 311 me a ua3 ha3 * :Real A again",
+	"chanmodes":  ":irc.example 324 me #x +ntl 12",
+	"topicreply": ":irc.example 332 me #x :topic from the reply",
+	"secure":     ":irc.example 671 me a :is using a secure connection",
 }
 
 func c05Lines(tail []string) []string {
@@ -145,7 +150,7 @@ func c05ScenarioSlow(tail []string, slow time.Duration) *explore.Scenario {
 				}
 			}
 			if !pilot {
-				for _, verb := range []string{"JOIN", "353", "NICK", "MODE", "TOPIC", "PART", "KICK", "QUIT", "352"} {
+				for _, verb := range []string{"JOIN", "353", "NICK", "MODE", "TOPIC", "PART", "KICK", "QUIT", "352", "311", "324", "332", "671"} {
 					c.HandleFunc(verb, rec("fg"))
 					c.HandleBG(verb, rec("bg"))
 				}
@@ -273,7 +278,7 @@ func c05ScenarioSlow(tail []string, slow time.Duration) *explore.Scenario {
 func init() {
 	Register(&Prop{
 		ID:   "C05",
-		Rule: "tracked sessions = own JOIN + NAMES followed by 1-3 state-changing lines from {other JOIN, NICK (other, own), MODE +o, MODE +nk, TOPIC, PART, KICK of the client, QUIT, WHO reply, second own JOIN}; a foreground and a background user handler on every verb record a vector (four sessions also with foreground handlers that take five virtual minutes and look again before returning) of single tracker queries over the universe; every execution within the deviation budgets; expected vectors come from a sequential pilot run of the same lines with quiescence after each; distinct = distinct canonical observation per session",
+		Rule: "tracked sessions = own JOIN + NAMES followed by 1-3 state-changing lines from {other JOIN, NICK (other, own), MODE +o, MODE +nk, TOPIC, PART, KICK of the client, QUIT, WHO reply, second own JOIN, WHOIS reply (311), channel mode reply (324), topic reply (332), 671}; a foreground and a background user handler on every verb record a vector (four sessions also with foreground handlers that take five virtual minutes and look again before returning) of single tracker queries over the universe; every execution within the deviation budgets; expected vectors come from a sequential pilot run of the same lines with quiescence after each; distinct = distinct canonical observation per session",
 		Assumptions: []string{
 			"interleavings at synchronisation/channel/socket granularity (DESIGN.md 3.8)",
 			"each recorded vector component is one atomic tracker call; background handlers are judged per component (some state at or after their line)",
@@ -281,11 +286,11 @@ func init() {
 		},
 		Jobs: func(tier string) []Job {
 			var tails [][]string
-			singles := []string{"joinb", "nicka", "opme", "topic", "parta", "kickme", "quita", "nickme", "who", "joiny", "modes"}
+			singles := []string{"joinb", "nicka", "opme", "topic", "parta", "kickme", "quita", "nickme", "who", "joiny", "modes", "whois", "chanmodes", "topicreply", "secure"}
 			for _, s := range singles {
 				tails = append(tails, []string{s})
 			}
-			pairs := [][]string{{"joinb", "nicka"}, {"opme", "topic"}, {"nicka", "quita"}, {"joinb", "kickme"}, {"nickme", "opme"}, {"topic", "parta"}, {"who", "nicka"}, {"joiny", "quita"}, {"modes", "kickme"}, {"quita", "joinb"}}
+			pairs := [][]string{{"joinb", "nicka"}, {"opme", "topic"}, {"nicka", "quita"}, {"joinb", "kickme"}, {"nickme", "opme"}, {"topic", "parta"}, {"who", "nicka"}, {"joiny", "quita"}, {"modes", "kickme"}, {"quita", "joinb"}, {"whois", "nicka"}, {"chanmodes", "opme"}, {"topicreply", "topic"}}
 			if tier == "thorough" {
 				pairs = nil
 				for _, a := range singles {
